@@ -67,7 +67,7 @@ type c19SetIntern struct {
 }
 
 func (s *c19SetIntern) id(cs *syntax.CharSet) int64 {
-	k := string(cs.Hash())
+	k := setKey(cs)
 	if v, ok := s.ids[k]; ok {
 		return v
 	}
@@ -192,7 +192,7 @@ func c19ClassIDs(o syntax.RegexOptions) map[string]int64 {
 		if err != nil || len(t.Root.Children) != 1 || t.Root.Children[0].Set == nil {
 			continue
 		}
-		m[string(t.Root.Children[0].Set.Hash())] = -int64(l)
+		m[setKey(t.Root.Children[0].Set)] = -int64(l)
 	}
 	c19ClassSets[o] = m
 	return m
@@ -203,7 +203,7 @@ func c19EncNode(n *syntax.RegexNode, o syntax.RegexOptions, in *c19SetIntern) []
 		if n.Set == nil {
 			return -5
 		}
-		if v, ok := c19ClassIDs(o)[string(n.Set.Hash())]; ok {
+		if v, ok := c19ClassIDs(o)[setKey(n.Set)]; ok {
 			return v
 		}
 		return in.id(n.Set)
